@@ -219,13 +219,6 @@ package gohlslib
 //@   loop 1 invariant held(&m.mutex) && muxerLinks(m) && len(m.streams) >= 1
 //@ end
 
-//@ func Muxer.generateMultivariantPlaylist
-//@   props C16
-//@   requires held(&m.mutex) && muxerLinks(m) && len(m.streams) >= 1
-//@   nosafety
-//@   noframe
-//@ end
-
 
 // ---------------------------------------------------------------------------------------
 // writer side of the monitor: every rotation runs inside one critical section and is followed
@@ -1195,8 +1188,10 @@ package gohlslib
 //@   requires forall(k, inTracks(m, k) ==> (m.Tracks[k] != nil && m.Tracks[k].Codec != nil))
 //@   loop 1 invariant ri < len(m.Tracks)
 //@   loop 1 invariant hasVideo == exists(k, 0 <= k && k <= ri && isVideo(m.Tracks[k].Codec))
+//@   loop 1 invariant forall(j, (0 <= j && j <= ri) ==> forall(k, (j < k && k <= ri) ==> !(isVideo(m.Tracks[j].Codec) && isVideo(m.Tracks[k].Codec))))
 //@   loop 2 invariant ri < len(m.Tracks)
 //@   loop 2 invariant hasVideo == exists(k, 0 <= k && k <= ri && isVideo(m.Tracks[k].Codec))
+//@   loop 2 invariant forall(j, (0 <= j && j <= ri) ==> forall(k, (j < k && k <= ri) ==> !(isVideo(m.Tracks[j].Codec) && isVideo(m.Tracks[k].Codec))))
 //@   loop 3 invariant ri < len(m.Tracks)
 //@   loop 3 invariant hasDefaultAudio == exists(k, 0 <= k && k <= ri && audioMarked(m, k))
 //@   loop 3 invariant forall(j, (0 <= j && j <= ri) ==> forall(k, (j < k && k <= ri) ==> !(audioMarked(m, j) && audioMarked(m, k))))
@@ -1212,6 +1207,7 @@ package gohlslib
 //@        && m.streams[k].isLeading == leadSpec(m, k) && m.streams[k].isRendition == rendSpec(m, k) && m.streams[k].isDefault == defSpec(m, k)))
 //@   ensures (result == nil && m.Variant != MuxerVariantMPEGTS) ==> forall(j, inTracks(m, j) ==> forall(k, (j < k && inTracks(m, k)) ==> !(audioMarked(m, j) && audioMarked(m, k))))
 //@   ensures result == nil ==> (m.leadingStream != nil && m.leadingStream.isLeading)
+//@   ensures (result == nil && m.Variant != MuxerVariantMPEGTS) ==> exists(L, 0 <= L && L < len(m.streams) && forall(i, (0 <= i && i < len(m.streams)) ==> (m.streams[i].isLeading == (i == L))))
 //@ end
 
 //@ func Muxer.Start$2
@@ -1234,4 +1230,67 @@ package gohlslib
 //@   loop 1 invariant ri < len(segments) && durations >= 0 && sizes >= 0 && maxBandwidth >= 0
 //@   loop 1 invariant (durations == 0 && sizes == 0 && maxBandwidth == 0) || (durations > 0 && 8 * sizes * 1000000000 < (maxBandwidth + 1) * durations)
 //@   ensures result0 >= result1 && result1 >= 0
+//@ end
+
+// C16: what one stream contributes to the multivariant playlist.
+//@ pred plURI(s *muxerStream, rawQuery string) string := ite(rawQuery != "", mediaPlaylistPath(s.id) + ("?" + rawQuery), mediaPlaylistPath(s.id))
+
+//@ func codecparams.Marshal
+//@   props C16
+//@   nosafety
+//@ end
+
+//@ func containsCodec
+//@   props C16
+//@   ensures result == exists(i, 0 <= i && i < len(cs) && cs[i] == c)
+//@   loop 1 invariant ri < len(cs) && forall(i, (0 <= i && i <= ri) ==> cs[i] != c)
+//@ end
+
+//@ func muxerStream.populateMultivariantPlaylist
+//@   props C16
+//@   nosafety
+//@   noframe
+//@   nocallpre
+//@   requires pl != nil && len(pl.Variants) >= 1 && pl.Variants[0] != nil
+//@   requires forall(i, (0 <= i && i < len(s.tracks)) ==> (s.tracks[i] != nil && s.tracks[i].Track != nil))
+//@   loop 1 invariant ri < len(s.tracks) && pl.Variants[0] == old(pl.Variants[0]) && len(pl.Variants) == old(len(pl.Variants)) && len(pl.Renditions) == old(len(pl.Renditions))
+//@   loop 1 invariant mv.URI == old(pl.Variants[0].URI) && mv.Audio == old(pl.Variants[0].Audio)
+//@   loop 1 invariant forall(i, (0 <= i && i < len(pl.Renditions)) ==> pl.Renditions[i] == old(pl.Renditions[i]))
+//@   ensures result == nil ==> (len(pl.Variants) == old(len(pl.Variants)) && pl.Variants[0] == old(pl.Variants[0]))
+//@   ensures (result == nil && s.isLeading) ==> pl.Variants[0].URI == plURI(s, rawQuery)
+//@   ensures (result == nil && !s.isLeading) ==> pl.Variants[0].URI == old(pl.Variants[0].URI)
+//@   ensures (result == nil && !s.isRendition) ==> (len(pl.Renditions) == old(len(pl.Renditions)) && pl.Variants[0].Audio == old(pl.Variants[0].Audio))
+//@   ensures (result == nil && s.isRendition) ==> (len(pl.Renditions) == old(len(pl.Renditions)) + 1 && pl.Variants[0].Audio == "audio")
+//@   ensures (result == nil && s.isRendition) ==> (pl.Renditions[len(pl.Renditions)-1] != nil
+//@        && pl.Renditions[len(pl.Renditions)-1].Type == "AUDIO" && pl.Renditions[len(pl.Renditions)-1].GroupID == "audio"
+//@        && pl.Renditions[len(pl.Renditions)-1].Name == s.name && pl.Renditions[len(pl.Renditions)-1].Language == s.language
+//@        && pl.Renditions[len(pl.Renditions)-1].Default == s.isDefault && pl.Renditions[len(pl.Renditions)-1].Autoselect)
+//@   ensures (result == nil && s.isRendition && s.isLeading) ==> pl.Renditions[len(pl.Renditions)-1].URI == nil
+//@   ensures (result == nil && s.isRendition && !s.isLeading) ==> (pl.Renditions[len(pl.Renditions)-1].URI != nil && *pl.Renditions[len(pl.Renditions)-1].URI == plURI(s, rawQuery))
+//@   ensures result == nil ==> forall(i, (0 <= i && i < old(len(pl.Renditions))) ==> pl.Renditions[i] == old(pl.Renditions[i]))
+//@ end
+
+// C16: the multivariant playlist handed to the encoder has exactly one variant, whose URI is the leading
+// stream's media playlist with the request's query string; one rendition per rendition stream; peak >= mean.
+//@ ufun rendcount(m *Muxer, n int) int
+//@ axiom rendcount_zero forall_as(m, *Muxer, rendcount(m, 0) == 0)
+//@ axiom rendcount_def forall_as(m, *Muxer, forall(n, n >= 1 ==> rendcount(m, n) == rendcount(m, n - 1) + ite(m.streams[n - 1].isRendition, 1, 0)))
+
+//@ func Muxer.generateMultivariantPlaylist
+//@   props C16
+//@   nosafety
+//@   noframe
+//@   nocallpre
+//@   requires held(&m.mutex) && muxerLinks(m) && len(m.streams) >= 1
+//@   requires oneLeader(m) && forall(i, (0 <= i && i < len(m.streams)) ==> m.streams[i] != nil)
+//@   loop 1 invariant ri < len(m.streams) && len(pl.Variants) == 1 && pl.Variants[0] != nil
+//@   loop 1 invariant pl.Variants[0].Bandwidth >= *pl.Variants[0].AverageBandwidth && *pl.Variants[0].AverageBandwidth >= 0
+//@   loop 1 invariant ri >= lidx(m) ==> pl.Variants[0].URI == plURI(m.streams[lidx(m)], rawQuery)
+//@   loop 1 invariant len(pl.Renditions) == rendcount(m, ri + 1)
+//@   loop 1 invariant forall(i, (0 <= i && i < len(pl.Renditions)) ==> (pl.Renditions[i] != nil && pl.Renditions[i].Type == "AUDIO" && pl.Renditions[i].GroupID == "audio"))
+//@   atcall playlist.Multivariant.Marshal len(pl.Variants) == 1 && pl.Variants[0].URI == plURI(m.leadingStream, rawQuery)
+//@   atcall playlist.Multivariant.Marshal pl.Variants[0].Bandwidth >= *pl.Variants[0].AverageBandwidth
+//@   atcall playlist.Multivariant.Marshal len(pl.Renditions) == rendcount(m, len(m.streams))
+//@   atcall playlist.Multivariant.Marshal forall(i, (0 <= i && i < len(pl.Renditions)) ==> (pl.Renditions[i] != nil && pl.Renditions[i].Type == "AUDIO" && pl.Renditions[i].GroupID == "audio"))
+//@   reachable calls("playlist.Multivariant.Marshal") == 1
 //@ end
